@@ -55,7 +55,7 @@ def check(case, ctx):
         tl = SF.tol(M, h)
         ctx.near("F=explicit-sum", abs(F - ref) / tl, 1.0, "explicit-sum/%s/%s%s" % (tag, "+".join(kinds), "/special" if M.any_special else ""),
                  "%s (Sg%d %s) h=%r: StructureFactor = %r, explicit unit-cell sum = %r (|dev|/S = %g); atoms %r" % (
-                     M.name, g.no, g.choice, h.tolist(), F, ref, abs(F - ref) / M.S,
+                     M.name, g.no, g.choice, h.tolist(), F, ref, abs(F - ref) / max(M.S, 1e-300),
                      [(m["el"], [str(x) for x in m["posf"]], m["kind"], m["mult"]) for m in M.model]))
     h = hs[0]
     F0 = SF.sfcalc(M, h)
